@@ -18,6 +18,10 @@ JudgeEvent(e) ==
     [] e.kind = "ternary" -> Judge_ternary(e)
     [] e.kind = "unroll" -> Judge_unroll(e)
     [] e.kind = "sequential_unroll" -> Judge_sequential_unroll(e)
+    [] e.kind = "sensitization_transform" -> Judge_sensitization_transform(e)
+    [] e.kind = "sensitize" -> Judge_sensitize(e)
+    [] e.kind = "sensitivity_transform" -> Judge_sensitivity_transform(e)
+    [] e.kind = "sensitivity_props" -> Judge_sensitivity_props(e)
     [] e.kind = "cnf"          -> Judge_cnf(e)
     [] e.kind = "solve"        -> Judge_solve(e)
     [] e.kind = "model_count"  -> Judge_model_count(e)
